@@ -118,6 +118,7 @@ type PropSpec struct {
 	Classes []string
 	Plan    func(tier string, seed uint64) []Job
 	Assume  []string
+	Exhaustive bool // the run enumerates its stated finite space completely
 }
 
 func runCheck(args []string) int {
@@ -448,6 +449,9 @@ func report(spec PropSpec, tier string, seed uint64, results []*JobRes, wall flo
 			"other_property_oracles_fired": other,
 			"known_findings_observed":      sortedKeys(knownSeen),
 		},
+	}
+	if spec.Exhaustive {
+		ev["coverage"].(map[string]interface{})["exhaustive"] = true
 	}
 	if !isReplay {
 		os.MkdirAll(filepath.Join(verifDir, "evidence"), 0o755)
